@@ -81,6 +81,19 @@ CHECKS.update({
    design="6 C17"),
 })
 
+CHECKS.update({
+ "C14": dict(
+   text="Lean theorems: the upper-bound propagator keeps every value of an ascending domain that satisfies the bound it was created for and only ever removes values (maxProp_keeps, capLast_sub); a field no statement mentions keeps its initial domain, i.e. its whole type (untouched_full); a per-bit swizzle candidate holds under a solver assignment iff the named bit of the variable has the drawn value (bit_candidate); and - for the whole loop - if some assignment satisfies what is asserted together with all candidates of a group (the drawn target is feasible) then, over any valid answer stream, no candidate is rejected and the model of the group's final Sat() satisfies every candidate: the returned value carries the drawn bits, so every feasible target is returned with the probability of its draw (target_returned, from greedy_all_accepted). The rest of bound inference (which statements create which propagator, IsNonRandExprVisitor, Python-int evaluation of the non-random side, the lower-bound / equality / variable-variable / in propagators with their list aliasing, the 100-round fixed point, unconstrained draws, range pick, d_width, bit/bit-group candidates, trial order) is an executable model (Bounds.lean) tied per call: the inferred range of every field, every draw with its bounds in order, unconstrained values and every swizzle candidate are compared. Direct oracle: every rand set with at most 13 random bits is enumerated exhaustively over the reference semantics and each value a field takes in some solution must lie in the range the library inferred.",
+   note=TB + "PARTIAL: soundness of the lower-bound and in propagators and of the fixed point rests on correspondence + the exhaustive feasibility oracle, not on theorems. The generator stays in the region where Python-int inference and the solver's reading agree (one signedness, no wrap-around); outside it F21 is a recorded known finding (replayed by its witness). Repaired: F07, F08, F34 (see known_findings.json). Uniformity of randint is assumed for the probability reading.",
+   technique="Lean 4 proof (propagator lemmas; greedy invariant over the answer stream) + trace-level differential correspondence + exhaustive feasibility oracle on small domains",
+   design="6 C14"),
+ "C20": dict(
+   text="Lean theorems: with ordering directives every field of the rand set lies in some ordered group, the fields no directive mentions forming the last one (every_field_in_a_group, mem_withRest); the outcome class of the solve does not depend on how swizzle candidates are grouped or ordered - for any two groupings and valid answer streams SolveFailure is raised by both or by neither, namely iff the hard system is unsatisfiable (order_independent, from C02), and by C01.randomize_sound every constraint holds whatever the groups; the first ordered group is tried against the hard and soft constraints only, so a drawn target of the earlier variable that can be extended to a full solution is kept and returned however few values of the later variable accompany it (first_group_hits_target). The group construction (dependency map, toposort levels restricted to the set's fields in field order) is an executable model tied per call: ordered groups of every rand set, swizzle candidates group by group in trial order, draws.",
+   note=TB + "PARTIAL: 'uniform over a's feasible values when these fill its inferred range' is carried by first_group_hits_target plus the assumed uniformity of randint; no frequency test is run. Several fields in one group interleave their bit equalities (only the per-group statement is proved). Repaired: F22.",
+   technique="Lean 4 proof + trace-level differential correspondence on generated systems with ordering directives",
+   design="6 C20"),
+})
+
 def main():
     checks = []
     for pid in ALL:
